@@ -1004,6 +1004,115 @@ def m_fields_is_empty(e, args, info):
 def m_punct_len(e, args, info):
     return container_len(e.deref(args[0]))
 
+
+@exact('std::iter::once')
+def m_iter_once(e, args, info):
+    return ListIt([args[0]])
+
+
+@exact('std::vec::Vec::with_capacity')
+def m_vec_with_capacity(e, args, info):
+    return VecV([])
+
+
+@exact('std::string::String::with_capacity')
+def m_string_with_capacity(e, args, info):
+    return ''
+
+
+@exact('std::vec::Vec::pop')
+def m_vec_pop(e, args, info):
+    v = e.deref(args[0])
+    return some(v.items.pop()) if v.items else none()
+
+
+@exact('std::vec::Vec::clear')
+def m_vec_clear(e, args, info):
+    del e.deref(args[0]).items[:]
+    return unit()
+
+
+@exact('std::vec::Vec::insert')
+def m_vec_insert(e, args, info):
+    e.deref(args[0]).items.insert(_int_arg(args[1], 'Vec::insert'), args[2])
+    return unit()
+
+
+@exact('std::vec::Vec::remove')
+def m_vec_remove(e, args, info):
+    v = e.deref(args[0])
+    i = _int_arg(args[1], 'Vec::remove')
+    if i >= len(v.items):
+        raise Panic('removal index out of bounds')
+    return v.items.pop(i)
+
+
+@exact('std::vec::Vec::truncate')
+def m_vec_truncate(e, args, info):
+    del e.deref(args[0]).items[_int_arg(args[1], 'Vec::truncate'):]
+    return unit()
+
+
+@exact('core::slice::get', 'std::vec::Vec::get')
+def m_slice_get(e, args, info):
+    r = args[0]
+    t = e.deref(r)
+    while isinstance(e.load(r.cell, r.proj), Ref):
+        r = e.load(r.cell, r.proj)
+    i = _int_arg(args[1], 'slice::get')
+    if i >= container_len(t):
+        return none()
+    return some(Ref(r.cell, r.proj + (('f', i),)))
+
+
+@exact('core::slice::contains')
+def m_slice_contains(e, args, info):
+    t = e.deref(args[0])
+    for x in (t.items if isinstance(t, VecV) else t.f):
+        r = m_eq(e, [x, args[1]], info)
+        if r if isinstance(r, bool) else e.branch(r):
+            return True
+    return False
+
+
+@exact('std::option::Option::take')
+def m_opt_take(e, args, info):
+    r = args[0]
+    cur = e.load(r.cell, r.proj)
+    e.store(r.cell, r.proj, none())
+    return cur
+
+
+@exact('std::option::Option::replace', 'std::option::Option::insert')
+def m_opt_replace(e, args, info):
+    r = args[0]
+    cur = e.load(r.cell, r.proj)
+    e.store(r.cell, r.proj, some(args[1]))
+    return cur if info[-1].endswith('replace') or '::replace' in info[-1] else Ref(r.cell, r.proj + (('v', 'Some'), ('f', 0)))
+
+
+@exact('std::mem::take')
+def m_mem_take(e, args, info):
+    r = args[0]
+    cur = e.load(r.cell, r.proj)
+    if isinstance(cur, VecV):
+        e.store(r.cell, r.proj, VecV([]))
+    elif isinstance(cur, str):
+        e.store(r.cell, r.proj, '')
+    elif isinstance(cur, EnumV) and cur.ty == OPT:
+        e.store(r.cell, r.proj, none())
+    else:
+        raise Unsupported('mem::take of %r' % (cur,))
+    return cur
+
+
+@exact('std::mem::replace')
+def m_mem_replace(e, args, info):
+    r = args[0]
+    cur = e.load(r.cell, r.proj)
+    e.store(r.cell, r.proj, args[1])
+    return cur
+
 # =========================================================================== Vec / slices / Punctuated
 
 @exact('std::vec::Vec::new', 'syn::punctuated::Punctuated::new')
